@@ -69,8 +69,8 @@ PROPS = {
     },
     'C11': {
         'lean': 'C11',
-        'corr': [_f('comp_xfer', 'exec_corr'), _f('comp_sema', 'corr')],
-        'oracles': [_x('C11'), _f('comp_upload', 'oracle_c11_realscale')],
+        'corr': [_f('comp_xfer', 'exec_corr'), _f('comp_sema', 'corr'), _f('comp_sema', 'blocking_corr')],
+        'oracles': [_x('C11'), _f('comp_upload', 'oracle_c11_realscale'), _f('comp_sema', 'blocking_oracle_c11')],
         'modelled': ['permit accounting of the upload-chunk semaphore, the sliding window, the io queue'],
     },
     'C20': {
@@ -118,7 +118,7 @@ PROPS = {
     'C15': {
         'lean': 'C15',
         'corr': [_f('comp_args', 'corr')],
-        'oracles': [_f('comp_args', 'oracle')],
+        'oracles': [_f('comp_args', 'oracle'), _f('comp_args', 'history_oracle')],
         'modelled': ['which table filters the kwargs of which client call (upload/copies/download/delete/__init__/processpool)',
                      'utils.get_filtered_dict', 'utils.set_default_checksum_algorithm', 'manager._validate_all_known_args'],
     },
